@@ -66,6 +66,7 @@ func (f *hashMap) Allocate(txid common.Txid, n int) common.Pgid {
 	// if we have a exact size match just return short path
 	if bm, ok := f.freemaps[uint64(n)]; ok {
 		for pid := range bm {
+			pid = verifPickPid(bm, pid)
 			// remove the span
 			f.delSpan(pid, uint64(n))
 
@@ -83,8 +84,10 @@ func (f *hashMap) Allocate(txid common.Txid, n int) common.Pgid {
 		if size < uint64(n) {
 			continue
 		}
+		size, bm = verifPickSpan(f.freemaps, uint64(n), size, bm)
 
 		for pid := range bm {
+			pid = verifPickPid(bm, pid)
 			// remove the initial
 			f.delSpan(pid, size)
 
